@@ -6,17 +6,19 @@ import fractions, io, json, math, random
 import core, layout, store_common as sc
 import forms_common as fc
 import p_c07, p_c12
+import ini_common as ic
 from layout import q
 
 ID = 'C09'
-GENMODS = ['gen_c09', 'gen_forms', 'gen_c12']
+GENMODS = ['gen_c09', 'gen_forms', 'gen_c12', 'gen_store']
 TARGET = 'props/C09.vo'
-PROOF_FILES = ['proof/C09Syntax.v', 'proof/C09.v', 'props/C09.v']
+PROOF_FILES = ['proof/C09Syntax.v', 'proof/C09Lexer.v', 'proof/IniProofs.v', 'proof/C09Ini.v', 'proof/C09.v', 'props/C09.v']
 AXIOMS = ['reals', 'classic', 'primitives']
 TRUSTED = [
     'Coq 8.16.1 kernel; the syntax and formula theorems are axiom-free; the modifier theorems live over R (Reals axioms, classic, funext via Coquelicot imports); primitive axioms only through interval in the correspondence files',
     'model/DefnSyntax.v is hand written: the pyparsing grammar, _descend_tree and the reducing modifiers are asserted on the AST (harness/gen_c09.py); tokens are rendered to text by the harness with arbitrary whitespace, '
-    'line continuation, "=" or ":" and number spellings (lexing by generation: pyparsing / configparser lexing is compared, not modelled)',
+    'line continuation, "=" or ":" and number spellings; model/Lexer.v models how pyparsing cuts the text of a definition into tokens (ASCII; its three number expressions, identifier character sets and default whitespace are '
+    're-read from the installed pyparsing on every run), configparser\'s own lexing (sections, "=" / ":", continuation lines) is compared, not modelled; float() of a number lexeme is outside the model (numv)',
     'cexprtk is assumed to give + - * / ^ and if() their usual meaning; pymath.* are the math-module functions; the formula model works over exact rationals on inputs where floats are exact',
 ]
 PRE = '''From Coq Require Import QArith Qround Qabs List ZArith.
@@ -171,6 +173,166 @@ def run_syntax_impl(case, wild=True):
     r = sc.classify(f)
     return r + (text,) if len(r) == 2 else r
 
+
+# ------------------------------------------------------------------------------------------- (a') characters: model/Lexer.v
+PRE_LEX = PRE.replace('model.DefnSyntax model.Evaluator', 'model.DefnSyntax model.Lexer model.Evaluator') + r"""
+Definition lexemes (cts : list ctok) : list (list Z) := flat_map (fun t => match t with CId s => [s] | CNum s _ => [s] | _ => [] end) cts.
+Fixpoint index_of (tbl : list (list Z)) (s : list Z) (i : nat) : nat := match tbl with [] => i | x :: r => if list_eqb x s then i else index_of r s (S i) end.
+Definition enc_ctok (t : ctok) : list Z :=
+  match t with CId s => [1; Z.of_nat (length s)] ++ s | CNum s w => [2; if w then 1 else 0; Z.of_nat (length s)] ++ s
+  | CGt => [3] | CGe => [4] | CLp => [5] | CRp => [6] | CComma => [7] end.
+Definition enc_fst (o : option rstart) : list Z := match o with Some s => 1 :: enc_st s | None => [0] end.
+Fixpoint enc_d2 (d : rdefn) : list Z :=
+  match d with
+  | RDefn first p rest => [10] ++ enc_fst first ++ enc_p2 p ++ [Z.of_nat (length rest)] ++
+      (fix er (l : list (rstart * rpart)) : list Z := match l with [] => [] | (s, x) :: r => enc_st s ++ enc_p2 x ++ er r end) rest
+  end
+with enc_p2 (p : rpart) : list Z :=
+  match p with
+  | RInst l ps => [20; Z.of_nat l; Z.of_nat (length ps)] ++ ps
+  | RMod n a args => [30; Z.of_nat n; Z.of_nat (S (length args))] ++ enc_d2 a ++ (fix ea (l : list rdefn) : list Z := match l with [] => [] | d :: r => enc_d2 d ++ ea r end) args
+  end.
+Definition run_text (text : list Z) : list Z :=
+  match lex text with
+  | None => [0]
+  | Some cts =>
+      let tbl := lexemes cts in
+      [1; Z.of_nat (length cts)] ++ flat_map enc_ctok cts ++
+      match read_value (fun s => index_of tbl s 0%nat) (fun s => Z.of_nat (index_of tbl s 0%nat)) text with Some d => 1 :: enc_d2 d | None => [0] end
+  end.
+"""
+LEX_ALPHABET = ' \t\n()>,=.+-eE_a1Z9x05'
+NUM_SPELLINGS = ['0', '1', '12', '-3', '+7', '1.', '.5', '1.5', '-0.25', '+.5', '1e3', '1E-2', '2.5e+1', '.5e1', '1.e2', '-1.25E-3', '007', '0.0', '10.50']
+ID_SPELLINGS = ['as.buck', 'as.lj', 'sum', 'f', 'f2', '_x', 'A.b.c', 'tb.x_1', 'e', 'E1', 'as.zero', 'x9_']
+def gen_text_case(g):
+    r = g.random()
+    if r < 0.5:
+        # a printed tree with free spellings and free whitespace
+        d = gen_rdefn(g, g.choice([0, 1, 2, 2]))
+        toks = tokens_of(d)
+        text = render_text(g, toks, g.choice(['wild', 'wild', 'tight', 'single']))
+        return {'kind': 'text', 'text': text, 'wellformed': True, 'expect': expect_tree(d)}
+    if r < 0.8:
+        # the same, then character edits: drop / insert / replace / swap
+        toks = tokens_of(gen_rdefn(g, g.choice([0, 1, 1, 2])))
+        text = list(render_text(g, toks, g.choice(['wild', 'tight', 'single'])))
+        for _ in range(g.choice([1, 1, 2, 3])):
+            e = g.random()
+            if e < 0.35 and text: del text[g.randrange(len(text))]
+            elif e < 0.7: text.insert(g.randrange(len(text) + 1), g.choice(LEX_ALPHABET))
+            elif e < 0.9 and text: text[g.randrange(len(text))] = g.choice(LEX_ALPHABET)
+            elif len(text) > 1: i = g.randrange(len(text) - 1); text[i], text[i + 1] = text[i + 1], text[i]
+        return {'kind': 'text', 'text': ''.join(text), 'wellformed': None}
+    if r < 0.9:
+        # lexeme soup: spellings glued with and without separators
+        parts = [g.choice(NUM_SPELLINGS + ID_SPELLINGS + ['>', '>=', '(', ')', ',']) for _ in range(g.randint(1, 6))]
+        return {'kind': 'text', 'text': ''.join(p + g.choice(['', '', ' ', '\t', '\n ']) for p in parts), 'wellformed': None}
+    return {'kind': 'text', 'text': ''.join(g.choice(LEX_ALPHABET) for _ in range(g.randint(0, 10))), 'wellformed': None}
+
+def expect_tree(d):
+    """the reading a printed tree must have, in the shape of impl_tree (lists instead of tuples: JSON)"""
+    out = []
+    for k, (st, p) in enumerate(d['parts']):
+        s = ['>', 0.0] if st is None else [st[0], float(NUM_SPELLINGS[st[1] % len(NUM_SPELLINGS)])]
+        if p['t'] == 'inst': q = ['inst', ID_SPELLINGS[p['label'] % len(ID_SPELLINGS)], [float(NUM_SPELLINGS[v % len(NUM_SPELLINGS)]) for v in p['params']]]
+        else: q = ['mod', ID_SPELLINGS[p['name'] % len(ID_SPELLINGS)], [expect_tree(a) for a in p['args']]]
+        out.append([s, q])
+    return out
+def as_lists(x):
+    return [as_lists(y) for y in x] if isinstance(x, (list, tuple)) else x
+
+def render_text(g, toks, mode):
+    """text of a token list with spellings drawn from the tables; whitespace mandatory only between two word-like tokens"""
+    def ws(must):
+        if mode == 'single': return ' '
+        if mode == 'tight': return ' ' if must else ''
+        return g.choice([' ', '  ', '\t', ' \t ', '\n   ', '\r\n', '\n\t']) if (must or g.random() < 0.5) else ''
+    out = ws(False) if mode == 'wild' else ''
+    prev = None
+    for t in toks:
+        if t[0] == 'm': s = t[1]
+        elif t[0] == 'n': s = NUM_SPELLINGS[t[1] % len(NUM_SPELLINGS)]
+        elif t[0] == 'i': s = ID_SPELLINGS[t[1] % len(ID_SPELLINGS)]
+        else: s = t[0]
+        if prev is not None: out += ws(prev[0] in ('n', 'i') and t[0] in ('n', 'i'))
+        out += s; prev = t
+    return out + (ws(False) if mode == 'wild' else '')
+
+def coq_text(text):
+    return '[%s]' % '; '.join('%d' % ord(ch) for ch in text)
+
+def dec_text_result(zs):
+    """run_text's output -> None (lexing failed) or (tokens, tree or None); tree in the shape of impl_tree"""
+    if zs[0] == 0: return None
+    n = zs[1]; i = 2; toks = []; tbl = []
+    for _ in range(n):
+        k = zs[i]
+        if k == 1:
+            ln = zs[i + 1]; s = ''.join(chr(c) for c in zs[i + 2:i + 2 + ln]); toks.append(('id', s)); i += 2 + ln
+            tbl.append(s)
+        elif k == 2:
+            w = zs[i + 1]; ln = zs[i + 2]; s = ''.join(chr(c) for c in zs[i + 3:i + 3 + ln]); toks.append(('num', s, bool(w))); i += 3 + ln
+            tbl.append(s)
+        else: toks.append(({3: '>', 4: '>=', 5: '(', 6: ')', 7: ','}[k],)); i += 1
+    if zs[i] == 0: return (toks, None)
+    i += 1
+    def first_index(s): return tbl.index(s)
+    uniq = {}
+    for j, s in enumerate(tbl): uniq.setdefault(j, s)
+    lex_of = lambda idx: tbl[idx]          # index_of returns the first position of the lexeme in tbl
+    def rd_start(i): return ({1: '>', 2: '>='}[zs[i]], float(lex_of(zs[i + 1]))), i + 2
+    def rd_p(i):
+        if zs[i] == 20:
+            l = lex_of(zs[i + 1]); n = zs[i + 2]
+            return ('inst', l, [float(lex_of(z)) for z in zs[i + 3:i + 3 + n]]), i + 3 + n
+        assert zs[i] == 30
+        nm = lex_of(zs[i + 1]); n = zs[i + 2]; i += 3; args = []
+        for _ in range(n):
+            a, i = rd_d(i); args.append(a)
+        return ('mod', nm, args), i
+    def rd_d(i):
+        assert zs[i] == 10; i += 1
+        if zs[i] == 0: st = ('>', 0.0); i += 1
+        else: st, i = rd_start(i + 1)
+        p, i = rd_p(i); parts = [(st, p)]
+        n = zs[i]; i += 1
+        for _ in range(n):
+            st, i = rd_start(i); p, i = rd_p(i); parts.append((st, p))
+        return parts, i
+    d, i = rd_d(i)
+    assert i == len(zs), (i, len(zs))
+    return (toks, d)
+
+def impl_tree(node):
+    out = []
+    while node is not None:
+        st = (node.start.range_type, float(node.start.start))
+        if hasattr(node, 'modifier'): p = ('mod', node.modifier, [impl_tree(a) for a in node.potential_forms])
+        else: p = ('inst', node.potential_form, [float(v) for v in node.parameters])
+        out.append((st, p)); node = node.next
+    return out
+
+_CP = []
+def run_text_impl(text):
+    from atsim.potentials.config import ConfigParser
+    if not _CP: _CP.append(ConfigParser(io.StringIO('[Pair]\n')))
+    return sc.classify(lambda: impl_tree(_CP[0]._parse_multi_range('k', text).potential_form_instance))
+
+def library_assumptions():
+    """the facts about pyparsing that model/Lexer.v restates (checked on the installed library on every run)"""
+    import pyparsing, string
+    from pyparsing import pyparsing_common as pc
+    bad = []
+    pats = [getattr(e, 'pattern', None) for e in getattr(pc.number, 'exprs', [])]
+    if pats != [r'[+-]?(?:\d+(?:[eE][+-]?\d+)|(?:\d+\.\d*|\.\d+)(?:[eE][+-]?\d+)?)', r'[+-]?(?:\d+\.\d*|\.\d+)', r'[+-]?\d+']:
+        bad.append('pyparsing_common.number is %r' % (pats,))
+    asc = lambda cs: ''.join(sorted(c for c in cs if ord(c) < 128))
+    if asc(pc.identifier.initChars) != asc(string.ascii_letters + '_'): bad.append('identifier start characters (ASCII) are %r' % asc(pc.identifier.initChars))
+    if asc(pc.identifier.bodyChars) != asc(string.ascii_letters + string.digits + '_'): bad.append('identifier body characters (ASCII) are %r' % asc(pc.identifier.bodyChars))
+    if set(pyparsing.ParserElement.DEFAULT_WHITE_CHARS) != set(' \t\n\r'): bad.append('default whitespace is %r' % pyparsing.ParserElement.DEFAULT_WHITE_CHARS)
+    if asc(pyparsing.alphanums) != asc(string.ascii_letters + string.digits): bad.append('alphanums is %r' % pyparsing.alphanums)
+    return bad
+
 # ------------------------------------------------------------------------------------------- (b) modifiers, n-ary, in every section
 def gen_nary(g, depth, ranged=False):
     """a p_c07 tree (binary, left nested) together with the n-ary potable spelling"""
@@ -321,8 +483,9 @@ def formula_model_expr(case):
 # ------------------------------------------------------------------------------------------- driver
 def gen_case(g):
     r = g.random()
-    if r < 0.5: return gen_syntax_case(g)
-    if r < 0.7: return gen_sem_case(g)
+    if r < 0.3: return gen_syntax_case(g)
+    if r < 0.55: return gen_text_case(g)
+    if r < 0.75: return gen_sem_case(g)
     return gen_formula_case(g)
 
 def corpus():
@@ -332,7 +495,10 @@ def corpus():
           'nary_args': [{'op': 'leaf', 'form': 'bornmayer', 'params': [2.0, 0.5], 'kind': 'full'}, {'op': 'leaf', 'form': 'constant', 'params': [1.5], 'kind': 'full'}, {'op': 'leaf', 'form': 'bornmayer', 'params': [2.0, 0.5], 'kind': 'full'}]}}
     c3 = {'kind': 'formula', 'arities': [2, 2], 'bodies': [['add', ['mul', ['var', 0], ['var', 1]], ['const', 1.0]], ['sub', ['call', 0, [['var', 0], ['var', 1]]], ['if', ['sub', ['var', 0], ['const', 1.0]], ['call', 0, [['var', 0], ['const', 2.0]]], ['floor', ['div2', ['var', 1], 2.0]]]]],
           'pots': [{'a': 'A', 'b': 'A', 'form': 1, 'params': [3.0]}, {'a': 'A', 'b': 'B', 'form': 0, 'params': [5.0]}], 'history': [[0, 2.0], [1, 0.5], [0, 0.5], [0, 2.0]], 'sub': 5}
-    return [c1, c2, c3]
+    texts = [">1x 2", "as.buck 1.5.3", "as.buck 1-2", "a.5", "as.buck.5", "f(a,b)3", "sum(as.buck 1 2 3,>=1e0as.lj 1 2)", ">=.5e1e 1", "a 1e", "a 1e+", "a 1.e5", "a .", "a 1 .5",
+             "a 1.5e3.2", ">> 1 a", ">=>1 a", "a>1b>=2c", "a(b)(c)", "a.b.", "a..b", "a 1_", "a 1._", ">1.a", ">1 .a", "a +1", "a + 1", "a 1,", "f(a 1,)", "f(,a)", "", " ", "a\r\n\t1",
+             "as.buck 1000.0 0.3 32.0", " sum (\n as.buck\t1.5 -2e0 ,>=3 f)  "]
+    return [c1, c2, c3] + [{'kind': 'text', 'text': t, 'wellformed': None} for t in texts]
 
 def correspond(ctx):
     g = ctx['rng']
@@ -363,6 +529,38 @@ def correspond(ctx):
         for i, (w, v) in enumerate(zip(want, got)):
             if abs(float(w) - v) > 1e-12 * max(1.0, abs(float(w))):
                 dis.append({'case': c, 'what': 'evaluation %d (potential %d at r = %r): model %r, implementation %r' % (i, c['history'][i][0], c['history'][i][1], float(w), v)}); break
+    # characters: lexing + parsing of whole texts (model/Lexer.v) against _parse_multi_range
+    txt = [c for c in cases if c['kind'] == 'text']
+    if ctx['thorough']:
+        # small scope, exhaustively: every string of up to 3 characters over the alphabet of significant characters and every string of
+        # 4 characters over its core (the model and pyparsing must agree on all of them, not on a sample)
+        import itertools
+        core_alpha = ' a1.e+>=(),'
+        for n in (1, 2, 3):
+            txt += [{'kind': 'text', 'text': ''.join(t), 'wellformed': None, 'exhaustive': True} for t in itertools.product(LEX_ALPHABET, repeat=n)]
+        txt += [{'kind': 'text', 'text': ''.join(t), 'wellformed': None, 'exhaustive': True} for t in itertools.product(core_alpha, repeat=4)]
+    for b in library_assumptions(): dis.append({'case': None, 'what': 'pyparsing differs from what model/Lexer.v restates: ' + b})
+    tres = sc.eval_results('C09t', PRE_LEX, ['(run_text %s)' % coq_text(c['text']) for c in txt], chunk=300 if ctx['thorough'] else 40)
+    tacc = tlexfail = 0
+    for c, zs in zip(txt, tres):
+        m = dec_text_result(zs); got = run_text_impl(c['text'])
+        if got[0] == 'Internal': dis.append({'case': c, 'what': 'text %r raised %s' % (c['text'], got[1])}); continue
+        if m is None or m[1] is None:
+            tlexfail += m is None
+            if c['wellformed']: dis.append({'case': c, 'what': 'the model does not read the rendering %r of a printed tree' % c['text']})
+            if got[0] == 'Ok': dis.append({'case': c, 'what': 'the model rejects %r (%s) but the implementation reads it as %r' % (c['text'], 'no token at some position' if m is None else 'tokens %r' % (m[0],), got[1])})
+        else:
+            tacc += 1
+            if got[0] != 'Ok': dis.append({'case': c, 'what': 'the model reads %r as %r, the implementation refuses it: %s' % (c['text'], m[1], got[1])})
+            elif got[1] != m[1]: dis.append({'case': c, 'what': 'readings of %r differ: model %r, implementation %r' % (c['text'], m[1], got[1])})
+    # lines: model/Ini.v against the repository's raw parser (sections, keys after optionxform, joined raw values; or an error)
+    for b in ic.library_assumptions(): dis.append({'case': None, 'what': 'configparser differs from what model/Ini.v restates: ' + b})
+    inis = [{'kind': 'ini', 'lines': ic.gen_ini_lines(g)} for _ in range(600 if ctx['thorough'] else 120)]
+    ires = sc.eval_results('C09i', ic.PRE_INI, ['(run_ini %s)' % ic.coq_lines(c['lines']) for c in inis], chunk=100 if ctx['thorough'] else 40)
+    iacc = 0
+    for c, zs in zip(inis, ires):
+        m = ic.dec_ini(zs); im = ic.impl_ini(c['lines']); iacc += m is not None
+        if not ic.compare(m, im): dis.append({'case': c, 'what': 'the lines %r: model %r, parser %r' % (c['lines'], m, im)})
     # modifiers: interval-certified against the combinator model
     goals, kept = [], []
     for c in sem:
@@ -380,15 +578,19 @@ def correspond(ctx):
         if o['has_d2']: goals.append(fc.point_goal(len(kept) - 1, '(match cd2 %s with Some d => d %s | None => 0 end)' % (term, fc.rq(c['r'])), o['d2'], 1e-9 * scale))
     for i in sorted(set(fc.run_point_goals('C09s', goals, chunk=30))):
         dis.append({'case': kept[i], 'what': 'the value/deriv/deriv2 of %s in [%s] at r = %r is not the pointwise meaning' % (nary_text(kept[i]['tree']), kept[i]['section'], kept[i]['r'])})
-    dist = {'kinds': {'syntax': len(syn), 'modifiers': len(sem), 'formulas': len(fo)}, 'syntax_accepted': nacc, 'syntax_rejected': len(syn) - nacc,
+    dist = {'kinds': {'syntax': len(syn), 'text': len(txt), 'modifiers': len(sem), 'formulas': len(fo), 'ini_files': len(inis)}, 'ini_accepted': iacc, 'ini_with_continuation': sum(1 for c in inis if any(l[:1] in (' ', '\t') and l.strip() for l in c['lines'])), 'syntax_accepted': nacc, 'syntax_rejected': len(syn) - nacc,
+            'text_accepted': tacc, 'text_rejected': len(txt) - tacc, 'text_without_token_cut': tlexfail, 'text_max_len': max([len(c['text']) for c in txt] or [0]),
             'max_tokens': max(len(c['tokens']) for c in syn), 'modifier_cases_certified': len(kept), 'sections': {s: sum(1 for c in kept if c['section'] == s) for s in ('Pair', 'EAM-Embed', 'EAM-Density', 'EAM-Density-FS')},
             'nary': sum(1 for c in kept if 'nary_args' in json.dumps(c['tree'])), 'formula_ops': {k: sum(1 for c in fo if '"%s"' % k in json.dumps(c['bodies'])) for k in ('call', 'if', 'div2', 'sq', 'floor', 'fabs', 'poly')}}
-    return {'evaluations': len(cases), 'cases': cases, 'nontrivial': core.distinct_count([c for c in cases if c['kind'] != 'syntax' or len(c['tokens']) > 2]),
+    nex = sum(1 for c in txt if c.get('exhaustive'))
+    dist['text_exhaustive_small_scope'] = nex
+    return {'evaluations': len(cases) + nex + len(inis), 'cases': cases, 'nontrivial': core.distinct_count([c for c in cases if c['kind'] != 'syntax' or len(c['tokens']) > 2]),
             'rule': 'syntax: definition trees to depth 3 (ranges, instances with 0..5 parameters, modifiers with 1..3 arguments) printed to tokens and rendered with free whitespace, tabs, line continuation, "=" / ":" and several number spellings, plus '
-                    'edited / random token lists: parse_value vs the tuple chain ConfigParser builds (accept/reject and the tree); modifiers: sum/product with 2..4 arguments, pow, trans, nested to depth 3 over the built-in forms, placed in [Pair], '
+                    'edited / random token lists: parse_value vs the tuple chain ConfigParser builds (accept/reject and the tree); text: renderings of printed trees with 19 number and 12 identifier spellings and free whitespace, character edits of '
+                    'them (drop / insert / replace / swap over an alphabet of the significant characters), glued lexemes and random strings: read_value (lexer + flags + parser, model/Lexer.v) vs _parse_multi_range (accept/reject, labels, float values); lines: generated files (both delimiters, blanks and tabs in keys, indentation, continuation / blank / comment lines inside values, repeated sections and keys, stray and malformed lines): parse_ini (model/Ini.v) vs the _RawConfigParser of the repository (sections, transformed keys, raw values, or an error); modifiers: sum/product with 2..4 arguments, pow, trans, nested to depth 3 over the built-in forms, placed in [Pair], '
                     '[EAM-Embed], [EAM-Density] (plain and A->B): value/deriv/deriv2 interval-certified against the left-nested combinator model; formulas: 1..3 forms over + - * / ^ if(), calls with different arguments, as.polynomial and '
                     'pymath.floor/ceil/fabs: energies under generated histories vs the evaluator model (exact rationals)',
-            'samples': cases[:3], 'distribution': dist, 'disagreements': dis[:20], 'oracle_cases': sem[:25] + fo[:40] + syn[:40]}
+            'samples': cases[:3], 'distribution': dist, 'disagreements': dis[:20], 'oracle_cases': sem[:25] + fo[:40] + syn[:40] + txt[:60] + inis[:40]}
 
 # ------------------------------------------------------------------------------------------- the statement as an oracle
 def oracle(case):
@@ -400,6 +602,29 @@ def oracle(case):
         if a[0] != b[0] or (a[0] == 'Ok' and a[1] != b[1]): fails.append('spelling changes the reading: %r gives %s, %r gives %s' % (a[-1], a[1] if a[0] == 'Ok' else a[0], b[-1], b[1] if b[0] == 'Ok' else b[0]))
         if case['wellformed'] and a[0] != 'Ok': fails.append('a well-formed definition %r is refused: %s' % (a[-1], a[1]))
         return fails
+    if k == 'ini':
+        # the statement's spelling clauses on the parser itself: '=' for ':' and a blank inside every key change nothing
+        import re
+        a = ic.impl_ini(case['lines'])
+        def respell(l):
+            m = re.match(r'^()([^=:\[#;\s][^=:]*?)(\s*)([=:])(.*)$', l)       # unindented lines only: they cannot be continuation lines
+            if not m: return l
+            key = m.group(2)
+            return m.group(1) + key[:1] + ' ' + key[1:] + m.group(3) + ('=' if m.group(4) == ':' else ':') + m.group(5)
+        b = ic.impl_ini([respell(l) for l in case['lines']])
+        if (a is None) != (b is None) or (a is not None and a != b): return ['respelling (other delimiter, a blank in each key) changes what the parser holds: %r vs %r' % (a, b)]
+        return []
+    if k == 'text':
+        a = run_text_impl(case['text'])
+        if a[0] == 'Internal': return ['text %r raised %s' % (case['text'], a[1])]
+        if case.get('wellformed') and a[0] != 'Ok': return ['the rendering %r of a well-formed definition is refused: %s' % (case['text'], a[1])]
+        if case.get('expect') is not None and as_lists(a[1]) != case['expect']: return ['%r reads as %r, not as the definition it spells: %r' % (case['text'], a[1], case['expect'])]
+        # whitespace is insignificant: every run of whitespace collapsed to one space reads the same
+        import re
+        t2 = re.sub(r'[ \t\r\n]+', ' ', case['text'])
+        b = run_text_impl(t2)
+        if a[0] != b[0] or (a[0] == 'Ok' and a[1] != b[1]): return ['whitespace changes the reading: %r gives %s, %r gives %s' % (case['text'], a[1] if a[0] == 'Ok' else a[0], t2, b[1] if b[0] == 'Ok' else b[0])]
+        return []
     if k == 'sem':
         t = case['tree']; r = case['r']
         try: f = sem_callable(case)
